@@ -203,6 +203,10 @@ impl DiscoveryDB {
     self
       .participant_last_life_signs
       .insert(guid.prefix, Instant::now());
+    #[cfg(rustdds_verif)]
+    self
+      .participant_last_life_signs
+      .insert(guid.prefix, crate::verif::clock::instant(Instant::now()));
 
     new_participant
   }
@@ -210,6 +214,8 @@ impl DiscoveryDB {
   pub fn participant_is_alive(&mut self, guid_prefix: GuidPrefix) {
     if let Some(ts) = self.participant_last_life_signs.get_mut(&guid_prefix) {
       let now = Instant::now();
+      #[cfg(rustdds_verif)]
+      let now = crate::verif::clock::instant(now);
       if now.duration_since(*ts) > std::time::Duration::from_secs(1) {
         debug!(
           "Participant alive update for {:?}, but no full update.",
@@ -310,6 +316,8 @@ impl DiscoveryDB {
   // lease_duration
   pub fn participant_cleanup(&mut self) -> Vec<(GuidPrefix, LostReason)> {
     let inow = Instant::now();
+    #[cfg(rustdds_verif)]
+    let inow = crate::verif::clock::instant(inow);
 
     let mut to_remove = Vec::new();
     // TODO: We are not cleaning up liast_life_signs table, but that should not be a
@@ -1037,3 +1045,7 @@ mod tests {
     assert_eq!(discoverydb.get_all_local_topic_readers().count(), 2);
   }
 }
+
+#[cfg(rustdds_verif)]
+#[path = "/verif/harness/incrate/access/discovery_db.rs"]
+mod verif_access;
